@@ -73,6 +73,9 @@ func (fr *Frame) execCall(c *ssa.CallCommon, instr *ssa.Call, cond string, st *S
 	if callee == nil {
 		fv := fr.val(c.Value)
 		if fv.Clo != nil {
+			if len(fv.Clo.Bindings) == 0 && fv.Clo.Recv == nil && fv.Clo.Fn.Parent() == nil {
+				return fr.callStatic(fv.Clo.Fn, c, args, resT, cond, st)
+			}
 			return fr.callClosure(fv.Clo, args, resT, cond, st, nil)
 		}
 		return fr.havocCall("dynamic call", c, args, resT, cond, st)
@@ -94,6 +97,28 @@ func (fr *Frame) callStatic(callee *ssa.Function, c *ssa.CallCommon, args []Val,
 		return v
 	}
 	sp := vc.W.SpecFor(callee)
+	if fr.top.inlineInits && callee.Blocks != nil && strings.HasPrefix(callee.Name(), "init#") && IsRepo(callee) {
+		if sp != nil && sp.Trusted {
+			// a trusted initialiser: the globals it stores to become arbitrary
+			vc.Assumed["trusted initialiser "+FuncKey(callee)+": "+sp.TrustWhy] = true
+			for _, b := range callee.Blocks {
+				for _, in := range b.Instrs {
+					if s, ok := in.(*ssa.Store); ok {
+						if g, ok := s.Addr.(*ssa.Global); ok {
+							c := vc.W.globalCell(vc, g)
+							st.cells[c] = vc.fresh("hv_"+c.Name, vc.cellSort(c))
+						}
+					}
+				}
+			}
+			return Val{T: resT}
+		}
+		sub := fr.callClosure(&Closure{Fn: callee}, args, resT, cond, st, nil)
+		return sub
+	}
+	if fr.top.inlineInits && callee.Name() == "init" && !IsRepo(callee) {
+		return Val{T: resT} // initialisers of imported packages do not touch this package's globals (A5)
+	}
 	if isMapsIterate(callee) {
 		return fr.execIterate(c, args, resT, cond, st)
 	}
@@ -158,8 +183,13 @@ func (fr *Frame) callClosure(clo *Closure, args []Val, resT types.Type, cond str
 		}
 	}
 	savedPos := vc.curPos
-	_, rs, res := sub.run(cond, st)
+	rc, rs, res := sub.run(cond, st)
 	vc.curPos = savedPos
+	// the inlined body returns (its panics are separate obligations): what holds on its return paths
+	// (e.g. loop exit conditions) holds after the call
+	if rc != "false" {
+		vc.fact(implies(cond, rc))
+	}
 	if rs != nil {
 		st.cells = rs.cells
 	}
